@@ -48,9 +48,41 @@ def seeded_table():
     return head + "\n".join(rows) + "\n"
 
 
+def rules_table():
+    """rule id -> functions of engine/props_*.py whose text names it (as a string literal)."""
+    import ast
+    m = {}
+    for p in sorted(glob.glob(os.path.join(VERIF, "engine", "props_*.py"))):
+        src = open(p).read()
+        tree = ast.parse(src)
+        for node in tree.body:
+            if isinstance(node, ast.FunctionDef):
+                seg = ast.get_source_segment(src, node) or ""
+                for r in set(re.findall(r'"(R\d\d\.\d+)', seg)):
+                    m.setdefault(r, set()).add("`%s:%s`" % (os.path.basename(p), node.name))
+    rows = ["| %s | %s |" % (r, ", ".join(sorted(fs))) for r, fs in sorted(m.items())]
+    return "| rule | implemented in |\n|---|---|\n" + "\n".join(rows) + "\n"
+
+
+def benign_table():
+    base = os.path.join(VERIF, "benign")
+    n = len([f for f in os.listdir(base) if f.endswith(".diff")]) if os.path.isdir(base) else 0
+    kinds = {}
+    rd = os.path.join(base, "README.txt")
+    lines = [l.strip() for l in open(rd)] if os.path.exists(rd) else []
+    rows = []
+    for l in lines:
+        mm = re.match(r"^(B\d\d-r\d)\.diff:\s*(.*)$", l)
+        if mm:
+            rows.append("| `%s` | %s |" % (mm.group(1), mm.group(2).replace("|", "/")[:260]))
+    return "%d refactorings.\n\n| refactoring | what it does (author's words) |\n|---|---|\n" % n + "\n".join(rows) + "\n"
+
+
 def main():
     p = os.path.join(VERIF, "DESIGN.md")
     s = open(p).read()
+    s = re.sub(r"<!-- RULES-TABLE-BEGIN -->.*?<!-- RULES-TABLE-END -->", lambda m: "<!-- RULES-TABLE-BEGIN -->\n" + rules_table() + "<!-- RULES-TABLE-END -->", s, flags=re.S)
+    s = re.sub(r"<!-- BENIGN-TABLE-BEGIN -->.*?<!-- BENIGN-TABLE-END -->", lambda m: "<!-- BENIGN-TABLE-BEGIN -->\n" + benign_table() + "<!-- BENIGN-TABLE-END -->", s, flags=re.S)
     s = re.sub(r"<!-- MUTANTS-TABLE-BEGIN -->.*?<!-- MUTANTS-TABLE-END -->", lambda m: "<!-- MUTANTS-TABLE-BEGIN -->\n" + mutants_table() + "<!-- MUTANTS-TABLE-END -->", s, flags=re.S)
     s = re.sub(r"<!-- SEEDED-TABLE-BEGIN -->.*?<!-- SEEDED-TABLE-END -->", lambda m: "<!-- SEEDED-TABLE-BEGIN -->\n" + seeded_table() + "<!-- SEEDED-TABLE-END -->", s, flags=re.S)
     open(p, "w").write(s)
